@@ -176,6 +176,51 @@ func RunTaggable(policyFile string, seed int64) (*Report, error) {
 			rep.mm(Mismatch{Props: []string{"C10"}, What: "a " + name + " payload must be forwarded unchanged (same event)", Vector: name, Expected: "same event, nil error", Observed: fmt.Sprintf("panic=%v err=%v same=%v", pan, perr, out == e)})
 		}
 	}
+	// IgnoreTypes: values of an ignored pointer type may sit in struct fields, slices and maps; whatever the filter
+	// does with them, the caller's payload must stay untouched and the output keeps its shape
+	type ign struct {
+		Owner string `class:"secret"`
+		N     int
+	}
+	type ignPayload struct {
+		Meta  *ign
+		List  []*ign
+		M     map[string]interface{}
+		Other string `class:"secret"`
+	}
+	mkIgn := func() *ignPayload {
+		return &ignPayload{Meta: &ign{"alice", 1}, List: []*ign{{"bob", 2}}, Other: "secret-other",
+			M: map[string]interface{}{"meta": &ign{"carol", 3}, "metas": []interface{}{&ign{"dave", 4}}, "plain": "plain-string"}}
+	}
+	for _, withIgnore := range []bool{true, false} {
+		rep.Vectors++
+		rep.Runs++
+		in, snap := mkIgn(), mkIgn()
+		f := &encrypt.Filter{Wrapper: w}
+		if withIgnore {
+			f.IgnoreTypes = []reflect.Type{reflect.TypeOf(&ign{})}
+		}
+		out, perr, pan := process(f, &eventlogger.Event{Type: "t", Payload: in, Formatted: map[string][]byte{}})
+		vec := fmt.Sprintf("IgnoreTypes=%v payload with *T in field, slice, map and slice inside a map", withIgnore)
+		if pan != nil || perr != nil || out == nil {
+			rep.mm(Mismatch{Props: []string{"C09"}, What: "Process with IgnoreTypes", Vector: vec, Expected: "forwarded", Observed: fmt.Sprintf("panic=%v err=%v", pan, perr)})
+			continue
+		}
+		if !reflect.DeepEqual(in, snap) {
+			rep.mm(Mismatch{Props: []string{"C10"}, What: "Process modified the payload it was given", Vector: vec, Expected: fmt.Sprintf("%+v %+v %+v", *snap.Meta, *snap.List[0], snap.M["meta"]), Observed: fmt.Sprintf("%+v %+v %+v", *in.Meta, *in.List[0], in.M["meta"])})
+		}
+		op, ok := out.Payload.(*ignPayload)
+		if !ok || op == in || op.Meta == nil || len(op.List) != 1 || len(op.M) != 3 || op.Meta.N != 1 || op.List[0].N != 2 {
+			rep.mm(Mismatch{Props: []string{"C10"}, What: "shape of the forwarded payload with IgnoreTypes", Vector: vec, Expected: "same shape, private copy", Observed: fmt.Sprintf("%+v", out.Payload)})
+			continue
+		}
+		if op.Other != "[REDACTED]" {
+			rep.mm(Mismatch{Props: []string{"C09"}, What: "secret field next to ignored values", Vector: vec, Expected: "[REDACTED]", Observed: op.Other})
+		}
+		if !withIgnore && (op.Meta.Owner != "[REDACTED]" || op.List[0].Owner != "[REDACTED]") {
+			rep.mm(Mismatch{Props: []string{"C09"}, What: "secret fields of nested structs", Vector: vec, Expected: "[REDACTED]", Observed: op.Meta.Owner + "," + op.List[0].Owner})
+		}
+	}
 	// rotation payloads are consumed, never forwarded
 	rep.Vectors++
 	rep.Runs++
